@@ -24,6 +24,8 @@ type fileGenCfg struct {
 	allowCsd  bool // records may carry a valid compressed_speed_distance
 	maxPerSlt int  // cap on messages per slice slot
 	wrapArr   bool // arrays of 256 and more elements (byte(Len) wraps; candidate finding, off by default)
+	shareArr  bool // some array fields of one File are prefixes of one backing array (spare capacity, shared memory)
+	pool      map[reflect.Type]reflect.Value
 }
 
 type fileCase struct {
@@ -429,11 +431,41 @@ func setSlice(rg *rng, fv reflect.Value, pf *pfieldInfo, cfg *fileGenCfg, st gen
 	if n > L && cfg.inDomain {
 		n = L
 	}
-	s := reflect.MakeSlice(fv.Type(), n, n)
 	inv := uint64(0xFF)
 	if pf != nil {
 		inv = invalidUint(pf, et.Bits())
 	}
+	if cfg.shareArr && !isCsd && n > 0 && n < 60 && rg.chance(1, 3) {
+		// a prefix of a backing array that other messages of this File use too: the caller's slices may have
+		// spare capacity and may overlap; Encode must neither write to them nor depend on that
+		if cfg.pool == nil {
+			cfg.pool = map[reflect.Type]reflect.Value{}
+		}
+		base, ok := cfg.pool[fv.Type()]
+		if !ok {
+			base = reflect.MakeSlice(fv.Type(), 64, 64)
+			for j := 0; j < 64; j++ {
+				e := base.Index(j)
+				switch e.Kind() {
+				case reflect.Uint8, reflect.Uint16, reflect.Uint32, reflect.Uint64:
+					v := genUint(rg, et.Bits(), inv)
+					if v == inv || (et.Bits() < 64 && v == (uint64(1)<<uint(et.Bits()))-1) || v == 0 {
+						v = uint64(1 + j)
+					}
+					e.SetUint(v)
+				case reflect.Int8, reflect.Int16, reflect.Int32, reflect.Int64:
+					e.SetInt(int64(1 + j))
+				case reflect.Float32, reflect.Float64:
+					e.SetFloat(float64(1 + j))
+				}
+			}
+			cfg.pool[fv.Type()] = base
+		}
+		st["arr_shared_backing"]++
+		fv.Set(base.Slice(0, n))
+		return
+	}
+	s := reflect.MakeSlice(fv.Type(), n, n)
 	mode := rg.intn(6) // 0: all invalid, 1: trailing invalid, 2: invalid in the middle, else values
 	for j := 0; j < n; j++ {
 		e := s.Index(j)
@@ -508,6 +540,9 @@ var fieldHits = map[string]int{}
 // genFile builds one File.
 func genFile(rg *rng, cfg *fileGenCfg, st genStats) *fileCase {
 	p := profile()
+	if cfg.shareArr {
+		cfg.pool = nil // one set of backing arrays per File
+	}
 	ft := p.validFts[rg.intn(len(p.validFts))]
 	ver := fit.V10
 	if rg.bool() {
